@@ -33,6 +33,16 @@ def zr(x):
     return _real(lift(_coerce(x)))
 
 
+def _table(MC, n, with_features=True):
+    """C12's tagged table, feature columns in NON-alphabetical order (row, a, g)"""
+    t = c12.make_table(MC, n, [2, 0, 1], with_features=with_features)
+    if with_features:
+        order = ["row", "a", "g"]
+        t.mol.features = t.mol.features.select(order)
+        t.feats = {k: t.feats[k] for k in order}
+    return t
+
+
 class FormatMismatch(Exception):
     pass
 
@@ -98,7 +108,7 @@ def replay_io(cex):
         for n in (1, 4):
             pos = rng.uniform(-50, 300, size=(n, 3))
             rot = Rotation.from_rotvec(rng.normal(size=(n, 3)))
-            feats = {"i": np.arange(n) * 3 - 1, "s": [f"n{k}" for k in range(n)], "b": [k % 2 == 0 for k in range(n)], "f": rng.normal(size=n)}
+            feats = {"s": [f"n{k}" for k in range(n)], "i": np.arange(n) * 3 - 1, "f": rng.normal(size=n), "b": [k % 2 == 0 for k in range(n)], "Label": np.arange(n)}
             for with_feat in (True, False):
                 m = Molecules(pos, rot, features=feats if with_feat else None)
                 df = m.to_dataframe()
@@ -124,6 +134,11 @@ def replay_io(cex):
                         ok = ok and len(r.features.columns) == 0
                     if not ok:
                         bad[f"round-trip({suffix!r},n={n},features={with_feat})"] = True
+                p = os.path.join(d, "full.csv")
+                m.to_csv(p, float_precision=None)
+                r = Molecules.from_csv(p)
+                if not np.allclose(np.asarray(r.pos, dtype=np.float64), np.asarray(m.pos, dtype=np.float64), atol=1e-9, rtol=1e-7):
+                    bad["to_csv(float_precision=None) is not full precision"] = float(np.abs(np.asarray(r.pos, dtype=np.float64) - np.asarray(m.pos, dtype=np.float64)).max())
                 p = os.path.join(d, "prec.csv")
                 m.to_csv(p, float_precision=2)
                 r = Molecules.from_csv(p)
@@ -136,6 +151,15 @@ def replay_io(cex):
                 r = Molecules.from_file(p, pos_cols=["Z", "Y", "X"], rot_cols=["rz", "ry", "rx"])
                 if not np.allclose(r.pos, pos) or not np.allclose(r.rotvec(), m.rotvec(), atol=1e-6) or len(r.features.columns) != (len(feats) if with_feat else 0):
                     bad[f"renamed-columns(n={n},features={with_feat})"] = True
+        # history: lay out, rotate in place, save, reload: the file holds the orientation after the rotation
+        m = Molecules(rng.uniform(0, 50, size=(3, 3)), Rotation.from_rotvec(rng.normal(size=(3, 3))))
+        m.to_dataframe()
+        m.rotate_by(Rotation.from_rotvec([0.3, -1.0, 0.4]), copy=False)
+        p = os.path.join(d, "hist.parquet")
+        m.to_file(p)
+        r = Molecules.from_file(p)
+        if not np.allclose(r.rotator.as_matrix(), m.rotator.as_matrix(), atol=1e-5):
+            bad["layout; rotate in place; save: stale orientations written"] = float(np.abs(r.rotator.as_matrix() - m.rotator.as_matrix()).max())
     return len(bad) > 0, {"problems": {k: (v if isinstance(v, (bool, float, str)) else repr(v)[:160]) for k, v in bad.items()}}
 
 
@@ -152,7 +176,7 @@ def sec_frame(rec, n=3, with_features=True, patches=None):
     tag = f"frame[n={n},features={int(with_features)}]"
     with L.installed():
         def run():
-            t = c12.make_table(MC, n, [2, 0, 1], with_features=with_features)
+            t = _table(MC, n, with_features)
             df = t.mol.to_dataframe()
             back = MC.Molecules.from_dataframe(df)
             ren = {"z": "Z", "y": "Y", "x": "X", "zvec": "rz", "yvec": "ry", "xvec": "rx"}
@@ -161,7 +185,17 @@ def sec_frame(rec, n=3, with_features=True, patches=None):
             back2 = MC.Molecules.from_dataframe(df2, pos_cols=pc, rot_cols=rc)
             # the rotation vector the frame must hold: reading it back gives the molecule's orientation (inverse pair)
             chk = rotation.SymRotation.from_rotvec(np.stack([_obj(np.asarray(df[c + "vec"].to_list(), dtype=object)) for c in "zyx"], axis=1)).as_quat() if n else None
-            return t, df, back, back2, (pc, rc), chk
+            # history: the table has been laid out once; then the SAME object is rotated and moved in place; the next layout shows the new state
+            hist = None
+            if n:
+                h = _table(MC, n, with_features)
+                h.mol.to_dataframe()
+                h.mol.rotate_by(rotation.SymRotation([list(rotation.R30[9])] * n), copy=False)
+                h.mol.translate([1, 2, 3], copy=False)
+                dfh = h.mol.to_dataframe()
+                qh = rotation.SymRotation.from_rotvec(np.stack([_obj(np.asarray(dfh[c + "vec"].to_list(), dtype=object)) for c in "zyx"], axis=1)).as_quat()
+                hist = (dfh, _obj(qh), _obj(h.mol.quaternion()).copy(), _obj(h.mol.pos).copy())
+            return t, df, back, back2, (pc, rc), chk, hist
 
         paths = explore(run, max_paths=10)
     for pi, pth in enumerate(paths):
@@ -169,7 +203,7 @@ def sec_frame(rec, n=3, with_features=True, patches=None):
             ok, det = replay_io({})
             rec.fact(f"{tag}/path{pi}/runs", False, key="C13/frame/raises", detail={"exc": repr(pth.exc)[:300], **det}, reproduced=ok)
             continue
-        t, df, back, back2, (pc, rc), chk = pth.result
+        t, df, back, back2, (pc, rc), chk, hist = pth.result
         h = [pth.condition()]
 
         def fact(name, ok, key, **det):
@@ -197,6 +231,12 @@ def sec_frame(rec, n=3, with_features=True, patches=None):
                 fact(f"{name}: same feature columns and values", fc == list(t.feats) and all(b.features[k].to_list() == v for k, v in t.feats.items()), "C13/frame/round-trip-features", columns=fc)
             else:
                 fact(f"{name}: no feature columns", len(b.features.columns) == 0, "C13/frame/round-trip-features", columns=b.features.columns)
+        if hist is not None:
+            dfh, qh, qnow, pnow = hist
+            for r in range(n):
+                rec.query(f"{tag}/path{pi}/history: layout; rotate+translate in place; layout: row{r} holds the CURRENT orientation", h, z3.And(*[zr(qh[r, k]) == zr(qnow[r, k]) for k in range(4)]),
+                          key="C13/frame/stale-layout", replay=replay_io, twin=False, nonlinear=True)
+                rec.query(f"{tag}/path{pi}/history: row{r} holds the CURRENT position", h, z3.And(*[zr(dfh[c][r]) == zr(pnow[r, a]) for a, c in enumerate("zyx")]), key="C13/frame/stale-layout", replay=replay_io, twin=False)
         fact("caller's column lists not modified", pc == ["Z", "Y", "X"] and rc == ["rz", "ry", "rx"], "C13/frame/arguments-modified")
         ids0, _ = c12.row_ids(t.mol)
         fact("source-untouched", ids0 == t.ids, "C13/frame/source-modified")
@@ -221,7 +261,7 @@ def sec_files(rec, n=3, patches=None):
         def run():
             fs.files.clear()
             del fs.log[:]
-            t = c12.make_table(MC, n, [2, 0, 1])
+            t = _table(MC, n)
             out = {}
             for sfx in SUFFIXES:
                 path = f"/dir.v1/mole{sfx}"
@@ -235,9 +275,11 @@ def sec_files(rec, n=3, patches=None):
             # explicit writers and their options
             t.mol.to_csv("/a.csv")
             t.mol.to_csv("/b.csv", float_precision=7)
+            t.mol.to_csv("/e.csv", float_precision=None)
+            t.mol.to_csv("/f.csv", float_precision=0)
             t.mol.to_parquet("/c.pq")
             t.mol.to_parquet("/d.pq", compression="lz4", compression_level=3)
-            written = {k: fs.files[k] for k in ("/a.csv", "/b.csv", "/c.pq", "/d.pq")}
+            written = {k: fs.files[k] for k in ("/a.csv", "/b.csv", "/c.pq", "/d.pq", "/e.csv", "/f.csv")}
             rcsv = MC.Molecules.from_csv("/b.csv", separator=",")
             kw_csv = [e for e in fs.log if e[0] == "read" and e[2] == "/b.csv"][-1][3]
             ren = {"z": "Z", "y": "Y", "x": "X", "zvec": "rz", "yvec": "ry", "xvec": "rx"}
@@ -280,6 +322,8 @@ def sec_files(rec, n=3, patches=None):
             fact(f"{path}: the written frame is the table (columns, positions, features; orientations via the read-back below)", is_the_table(fr), "C13/files/written-frame", columns=fr.columns)
         fact("to_csv default float_precision=4", written["/a.csv"][2].get("float_precision") == 4, "C13/files/csv-options", kw=repr(written["/a.csv"][2]))
         fact("to_csv(float_precision=7) passed on", written["/b.csv"][2].get("float_precision") == 7, "C13/files/csv-options", kw=repr(written["/b.csv"][2]))
+        fact("to_csv(float_precision=None) passed on (full precision)", "float_precision" in written["/e.csv"][2] and written["/e.csv"][2]["float_precision"] is None, "C13/files/csv-options", kw=repr(written["/e.csv"][2]))
+        fact("to_csv(float_precision=0) passed on", written["/f.csv"][2].get("float_precision") == 0 and written["/f.csv"][2].get("float_precision") is not None, "C13/files/csv-options", kw=repr(written["/f.csv"][2]))
         fact("to_parquet default zstd level 10", written["/c.pq"][2].get("compression") == "zstd" and written["/c.pq"][2].get("compression_level") == 10, "C13/files/parquet-options", kw=repr(written["/c.pq"][2]))
         fact("to_parquet(compression, level) passed on", written["/d.pq"][2].get("compression") == "lz4" and written["/d.pq"][2].get("compression_level") == 3, "C13/files/parquet-options", kw=repr(written["/d.pq"][2]))
         fact("from_csv(**pl_kwargs) passed to the reader", kw_csv == {"separator": ","}, "C13/files/reader-options", kw=repr(kw_csv))
